@@ -35,7 +35,8 @@ REQUIRE_CLAUSES = ["acc_exact", "acc_nonempty_separated", "tgt_unsplit_unchanged
                    "e2e_on_access_contigs", "e2e_inside_shrunk_access", "e2e_clear_of_baits", "e2e_accounts_targeted",
                    "e2e_accounts_canonical", "e2e_targets_antitargets_disjoint", "e2e_antitargets_in_accessible_sequence",
                    "flat_bins", "flat_log2", "flat_gc_columns", "e2e_ref_antitargets_apart", "e2e_ref_genes_from_baits"]
-REQUIRE_ACTIONS = ["MC_BinDesign.Access", "MC_BinDesign.Target", "MC_BinDesign.Antitarget", "MC_BinDesign.FlatReference"]
+# (no REQUIRE_ACTIONS: `-coverage 1` slows TLC down 10-50x on this module; that every action is taken is shown by the
+#  invariant DoneOK plus the count of finished behaviours = count of initial states, checked in _direction1)
 
 MARGIN = 500          # the 500-base margin (C12's statement; cnvlib.params.INSERT_SIZE * 2) -- not read from the code
 TELOMERE = 150000     # documented heuristic of get_antitargets when no access table is given -- not read from the code
@@ -258,7 +259,8 @@ def _inputs_from_states(states, pad, k0):
 def _direction1(ctx, recs, thorough):
     scopes = [
         # every text of GLen characters over {N, A} x exclude row x min_gap x sizes, one bait in the middle
-        ("genome", dict(glen=9, expoints=[3, 4, 6], gaps=[0, 2], sizes=[200, 301])),
+        ("genome", dict(glen=9, expoints=[3, 4, 6], gaps=[0, 2], sizes=[200])),
+        ("genome", dict(glen=7, expoints=[2, 5], gaps=[0, 1], sizes=[301])),
         # a fixed genome N A.. N A.. N; every bait table of <= 2 rows (zero-width, nested, abutting, duplicate) x split x avg
         ("baits", dict(glen=9, gaps=[0, 2], max_baits=2, max_w=2, tgt_avgs=[1, 2], sizes=[200])),
         # two sequences + a contig that is only baited x 6 namings x targeted subsets x skip x male reference
@@ -282,12 +284,16 @@ def _direction1(ctx, recs, thorough):
         cfg = ctx.cfg(f"mc-{k}-{scope}", constants=_constants(scope, **kw),
                       invariants=["DesignOKModuloKnown" if telo else "DesignOK", "ScannerAgreesWithRuns", "AccessIsExpected",
                                   "NoSelfDrift", "DoneOK"])
-        # -coverage 1 (per-action counts for the vacuity guard) only on the smallest scope: it slows TLC down 10x here
-        r, states, n_init = _mc(ctx, cfg, coverage=telo)
+        r, states, n_init = _mc(ctx, cfg)
         if r.violated:
             raise MachineryError(f"design check of scope {scope} violated {r.violated}: the A-layer breaks the P-layer")
-        if len(states) != n_init:
+        if len(states) != n_init or n_init == 0:
             raise MachineryError(f"dump replay: {n_init} initial states but {len(states)} finished behaviours")
+        n_ref = sum(1 for st in states if "reference" in st["done"])
+        if n_ref == 0:
+            raise MachineryError(f"vacuity guard: no behaviour of scope {scope} reaches the FlatReference action")
+        for a, n in (("Access", n_init), ("Target", n_init), ("Antitarget", n_init), ("FlatReference", n_ref)):
+            ctx.actions[f"MC_BinDesign.{a}"] = ctx.actions.get(f"MC_BinDesign.{a}", 0) + n    # read off the dumped behaviours
         inputs = _inputs_from_states(states, kw.get("pad", 1), k)
         del states
         out = ctx.execute(execute, inputs[::DEV_STRIDE])
@@ -544,9 +550,7 @@ def run(ctx: Ctx):
                 "other, zero-width / nested / off-sequence baits, FASTA given to the reference or not).  A case is distinct by "
                 "its whole input; non-trivial when some bait has positive width on a sequence of the FASTA.")
     recs = []
-    if DEV_RANDOM_ONLY:
-        REQUIRE_ACTIONS.clear()
-    else:
+    if not DEV_RANDOM_ONLY:
         _direction1(ctx, recs, thorough)
     if DEV_STRIDE > 1 or DEV_RANDOM_ONLY:
         ctx.exhaustive = None
